@@ -21,10 +21,11 @@ pub fn gen_coding(t: &mut Tape, total: usize) -> Coding {
             1 => t.range(1, left.min(20)),
             _ => t.range(1, left),
         };
-        let ext: Vec<u8> = match t.weighted(&[5, 1, 1]) {
+        let ext: Vec<u8> = match t.weighted(&[5, 1, 1, 1]) {
             0 => vec![],
             1 => b";n=v".to_vec(),
-            _ => b" ; x".to_vec(),
+            2 => b" ; x".to_vec(),
+            _ => b";q=\"\xe9\"".to_vec(),
         };
         let digits = format!("{:x}", len).len();
         let lz = if t.chance(15) { t.range(1, 2) } else { 0 };
